@@ -40,6 +40,11 @@ def check(run):
             rng.shuffle(tasks)
             for j, t in enumerate(tasks if not quick else tasks[:5]):
                 cases.append({'backend': ['file', 'redis', 'dict'][j % 3], 'nworkers': 2, 'sched_seed': rng.randrange(10 ** 9), 'policy': ['stall', j % 2, t]})
+            # an operator command that must not touch held locks (`jug cleanup --keep-locks`, `jug cleanup --failed-only`) runs while a worker is
+            # inside a task and the other workers carry on: the task must still run once, by one worker at a time
+            for j, t in enumerate(tasks[:2]):
+                cases.append({'backend': ['file', 'redis', 'dict', 'filepack'][(pi + j) % 4], 'nworkers': 2, 'sched_seed': rng.randrange(10 ** 9), 'policy': ['hold', 0, t, 200],
+                              'operator': [['cleanup-keep-locks', 'cleanup-failed-only'][j % 2], 0, t]})
             # late joiner / early quitter
             cases.append({'backend': rng.choice(['file', 'redis']), 'nworkers': 3, 'sched_seed': rng.randrange(10 ** 9), 'late': {2: rng.randint(5, 60)}})
             cases.append({'backend': rng.choice(['file', 'redis']), 'nworkers': 3, 'sched_seed': rng.randrange(10 ** 9), 'max_tasks': {0: 1}})
